@@ -1395,7 +1395,15 @@ func (s *search) record(fs []finding, hist []op, n *node) {
 func (s *search) expand(n *node, idx int, maxDepth int, ss *stepStats) {
 	ops := enabled(n.st, s.cfg)
 	hist := s.history(n)
+	leaf := n.depth+1 >= maxDepth // the states reached from here are not expanded any more
 	for j, o := range ops {
+		if leaf && o.K == kFetchBody {
+			// What a body fetch adds to FETCH i FLAGS is the flag notification it owes to every
+			// session; the fetching session gets its own only when nothing is owed to it that would
+			// shift a number, so the lines that can be wrong arrive with LATER commands. As the last
+			// command of a history it is a FETCH like the others: left out (engine economy).
+			continue
+		}
 		h := append(append([]op{}, hist...), o)
 		st2, per := execute(s.cfg, h, n.st, len(h)-1, nil, ss)
 		atomic.AddInt64(&s.trans, 1)
@@ -1648,11 +1656,12 @@ func main() {
 	}
 	run.Set("observations_outside_the_property", obs)
 	run.Sample("history", "s0:[setup] APPEND A ; s0:[setup] APPEND A ; s0:[setup] SELECT A ; s1:[setup] SELECT A ; s1: STORE 1 +FLAGS (\\Deleted) ; s1: EXPUNGE ; s0: FETCH 2 FLAGS ; s0: NOOP")
-	run.Rule = "breadth-first search over histories of {APPEND m, SELECT m, CLOSE, STORE i|* +FLAGS (\\Deleted), STORE 1:* -FLAGS (\\Deleted), UID STORE u, EXPUNGE, UID EXPUNGE u, COPY i m', MOVE i m', MOVE 1:2 m', UID MOVE u m', FETCH i|1:* FLAGS, UID FETCH 1:* FLAGS, SEARCH ALL|DELETED, UID SEARCH ALL, NOOP, IDLE..DONE}, i in {1,last,last+1}, u in {first/last UID of the session's view, newest UID of the mailbox}, issued one at a time by the sessions on a real imapserver+imapmemserver, from several roots (empty mailboxes / 2, 3 (4) messages with every session selected); every transition = fresh server, fresh connections, replay, one more command, fresh probe connection; merged on the canonical reference-model state (mailboxes as (uid rank, \\Deleted) lists; per session: selected mailbox, idling, the messages its announced view denotes, the notifications owed to it in order; sessions sorted, mailbox names up to swap). non-trivial = distinct states in which some session is owed notifications"
+	run.Rule = "breadth-first search over histories of {APPEND m, SELECT m, CLOSE, STORE i|* +FLAGS (\\Deleted), STORE 1:* -FLAGS (\\Deleted), UID STORE u, EXPUNGE, UID EXPUNGE u, COPY i m', MOVE i m', MOVE 1:2 m', UID MOVE u m', FETCH i|1:* FLAGS, FETCH i (UID BODY[]) (not PEEK: sets \\Seen, a flag notification is owed to every session of the mailbox including the fetching one; not issued as the last command of a history), UID FETCH 1:* FLAGS, SEARCH ALL|DELETED, UID SEARCH ALL, NOOP, IDLE..DONE}, i in {1,last,last+1}, u in {first/last UID of the session's view, newest UID of the mailbox}, issued one at a time by the sessions on a real imapserver+imapmemserver, from several roots (empty mailboxes / 2, 3 (4) messages with every session selected); every transition = fresh server, fresh connections, replay, one more command, fresh probe connection; merged on the canonical reference-model state (mailboxes as (uid rank, \\Deleted) lists; per session: selected mailbox, idling, the messages its announced view denotes, the notifications owed to it in order; sessions sorted, mailbox names up to swap). non-trivial = distinct states in which some session is owed notifications"
 	run.Exhaustive = allEmpty
 	run.Assume("commands are issued one at a time (the property is about histories, not overlap); IDLE is the only command during which other sessions act, and the idling session's output is read when it sends DONE")
 	run.Assume("EXISTS n announces the oldest not-yet-announced messages of the mailbox in arrival order, including messages removed before they were announced (their EXPUNGE must then follow)")
 	run.Assume("which messages a sequence set with '*' denotes on a stale view is not constrained by the property (DESIGN §5 #15): both readings (largest number announced to the session / server-side count) are accepted, the probe decides which one the reference model follows")
+	run.Assume("FETCH i (UID BODY[]) owes one flag notification per fetched message to every session that has the mailbox selected, the fetching one included (it receives it with the FETCH unless a removed message is still owed to it); the \\Seen flag itself is not part of the reference model's mailbox state (\\Deleted is), the notifications are judged for their sequence number and number/UID pairing like every FETCH line; the body fetch is not issued as the last command of a history (nothing could observe the notifications it causes)")
 	run.Assume("FETCH and SEARCH results are judged only for the numbers they contain (range, pairing of number and UID against the announced view), not for completeness or flag values")
 	run.Assume("a command that is not completed OK is not a violation (the property does not promise success): the model assumes it had no effect, the probe verifies that, its response lines are judged, and it is listed under observations_outside_the_property")
 	run.Assume("after a violation the history is not extended, except: a FETCH line with sequence number 0 is ignored, and after MOVE's duplicated EXPUNGE responses the session's view is restarted from the mailbox (MOVE's final poll has flushed everything the server owed); counterexamples found after such a restart say so")
